@@ -16,6 +16,32 @@ NOTES = ("All checks: exit 0 = held on everything explored, 1 = VIOLATION lines,
          "(never a verdict). Known findings: known_findings.jsonl. Design: DESIGN.md.")
 ALL = ["C%02d" % i for i in range(1, 23)]
 CHECKS = [
+    dict(id="C01",
+         text="Cafs.tla (writer state machine: Write sizes, leaf buffer, concurrent flushes completing in any order, Flush "
+              "assembling keys by index; layout and read operators) is model-checked; every behaviour TLC enumerates within the "
+              "bound is replayed on pkg/cafs with the source chunking and the flush completion order forced, PutRes and the "
+              "blob store compared with the specification, followed by the full read matrix (Read/ReadAt/WriteTo)",
+         design_ref="§3 C01",
+         note="Trusted: TLC, the refinement map cells->bytes, the in-memory object store (itself checked against "
+              "ObjectStore.tla). Bounds: quick = all behaviours with <= 2 leaves+1 cell, 5 chunk sizes, concurrency 1-2, "
+              "leaf sizes 64/65/96/4096; thorough adds 6 leaves, concurrency up to 16, leaf sizes up to 5 MiB (sampled)",
+         technique="TLA+ model checking (TLC) + exhaustive replay of TLC-enumerated behaviours on pkg/cafs"),
+    dict(id="C02",
+         text="Histories of Puts generated from Gen_Cafs.tla (key functional in the content, duplicate flag, write-once blobs "
+              "checked by TLC) are replayed on pkg/cafs; keys are compared with the abstract keys of the specification "
+              "concretized by the tree layout and recomputed by an independent BLAKE2b tree implementation",
+         design_ref="§3 C02",
+         note="Trusted: Python hashlib BLAKE2b (primitive), TLC, refinement map. The layout (node offsets, last-node flag, root "
+              "over leaf digests) comes from Cafs.tla",
+         technique="TLA+ model checking (TLC) + replay of TLC-generated Put histories + independent hash oracle"),
+    dict(id="C03",
+         category="fault_enumeration",
+         text="TLC enumerates (object length x damaged blob x damage kind) and derives from Cafs.tla the outcomes each read "
+              "may have; each case is applied to the real blob store and observed through every read style of pkg/cafs",
+         design_ref="§3 C03",
+         note="Trusted: TLC, refinement map; damage is applied at rest and read through a fresh cafs instance. The bundle "
+              "download path is covered by the bundle checks",
+         technique="TLC-enumerated fault cases with specification-derived oracles, replayed on pkg/cafs"),
     dict(id="C16",
          text="ObjectStore.tla is model-checked exhaustively over a hostile key set (pagination = one-page listing, sorted, "
               "duplicate free, exclusive winner); TLC-generated operation histories are replayed on the real localfs store with "
